@@ -371,7 +371,13 @@ class C12(Prop):
                 if q > 10.0 or (q > 5.5 and i + 1 < len(pairs) and pairs[i + 1][0] == b and pairs[i + 1][2] > 5.5):
                     return "super", a, b
                 if q > 3.0 and t[b] > 0.8:
-                    # time quadruples when the input doubles, at a size where it already costs about a second: not "gentle"
+                    # time quadruples when the input doubles, at a size where it already costs about a second: not "gentle".
+                    # Quadratic work shows at EVERY doubling of the larger sizes; one steep step after gentle ones is one bad
+                    # measurement (seen on machines that run a dozen other workloads: 2.0, 2.1, 2.8 for a linear family), so
+                    # the step before must be steep as well where it was measured
+                    half = a // 2
+                    if half in t and t[half] > 0.03 and a == 2 * half and t[a] / t[half] <= 2.5:
+                        continue
                     return "quadratic", a, b
             return None
 
